@@ -144,7 +144,7 @@ class C11(PipelineProp):
         return {"gen": gen, "input": inp, "pretext": ptx, "prefix": "SUPER_"}
 
     def run_impl(self, case):
-        return P.run_pipeline({**case, "twice": True})
+        return P.run_pipeline({**case, "twice": True, "history": self.history_of(case)})
 
     def oracle(self, case, obs):
         if "err" in obs:
